@@ -33,7 +33,9 @@ def line_alphabet(LIB):
             # the path pasted twice without a separator: starts with the entry, but is a different (foreign) library path
             LIB + LIB, LIB + LIB + b' # c',
             # one line that alone makes the file larger than 10 KiB (beyond any "small file" helper)
-            b'# ' + b'y' * 11000]
+            b'# ' + b'y' * 11000,
+            # comments that do not start in column one (for the loader a '#' starts a comment wherever it stands)
+            b' # ' + LIB, b'\t# libsnoopy.so is switched off']
 
 
 def files(LIB, maxlines, extra=True):
@@ -85,7 +87,7 @@ def lines_of(content):
 
 
 def is_comment(line):
-    return line[:1] == b'#'
+    return line.lstrip(b' \t')[:1] == b'#'
 
 
 def own_entry_line(line, LIB):
